@@ -5,6 +5,7 @@ from . import absint as A
 from .engine import comparison_of, normalise_le
 from . import lib_c11 as L
 from .lib import PLUMBING, callee_allow, callers, closure_args_of_call, operand_local, status_const_of_ctor
+from .lib_c16 import field_places
 
 LEVEL = "other"
 TECHNIQUE = "static analysis: edge dominance of every body-data delivery (try_stream! yield / try_unfold step result) by the normalised predicate bytes_read+len <= cap in StreamingBody::into_stream's MIR, accumulator/cap provenance slices, who-constructs and who-consumes censuses, exhaustive interpretation of the limit selection"
@@ -410,7 +411,36 @@ def r9_refusal_cannot_panic(ctx):
     c10.r4_panic_census(Renamed(ctx, "C11.R9", "no unreviewed potential panic site on the request path, the body drain included: a refusal is a response, not a dropped connection"))
 
 
-RULES = [("C11.R9", r9_refusal_cannot_panic), ("C11.R8", r8_declared_limit_is_stored), ("C11.R7", r7_frame_errors_are_errors), ("C11.R1", r1_cap_before_delivery), ("C11.R2", r2_refusal_final), ("C11.R3", r3_cap_provenance), ("C11.R4", r4_effective_limit), ("C11.R5", r5_who_reads_body), ("C11.R6", r6_only_counted_bytes_refuse)]
+ALLOC_SIZED = r"::with_capacity$|::with_capacity_in$|::reserve$|::reserve_exact$|::try_reserve$|::try_reserve_exact$|::resize$|::resize_with$|vec::from_elem$|::repeat$|::split_off$|::truncate$"
+
+
+def r10_limit_only_compared(ctx):
+    """Added after adversary change C11-I (`BytesMut::with_capacity(self.cap)` "to size the buffer once": with the limit set to usize::MAX to
+    mean `no limit` the reservation panics with `capacity overflow` and a 12-byte body gets no response at all): the limit is a bound to
+    compare the running byte count with, for every value a configuration can hold -- it is never a size to allocate, reserve or cut to."""
+    R = ctx.rule("C11.R10", "the body limit (StreamingBody.cap / request_body_max_bytes()) is never the size argument of an allocation, reservation or resize: "
+                 "a body within the limit is accepted for every configurable limit, usize::MAX included", floor=2)
+    n_reads = 0
+    bad = []
+    for f in ctx.ds.F.values():
+        if not re.search(r"^<*extractor::|^http_util::|^server::|^handler::", f.id):
+            continue
+        reads = any(True for _ in field_places(f, "cap")) or bool(f.live_calls(r"RequestContext::<Context>::request_body_max_bytes$"))
+        if not reads:
+            continue
+        n_reads += 1
+        for bb, t in f.live_calls(ALLOC_SIZED):
+            for a in t["args"][0:]:
+                sl = f.slice(a)
+                if sl.reads_field("cap") or sl.has_call(r"RequestContext::<Context>::request_body_max_bytes$"):
+                    bad.append((f, bb, t["callee"]))
+                    break
+    ctx.check(R, "functions-reading-the-limit", n_reads >= 2, "functions that read StreamingBody.cap or call request_body_max_bytes(): %d" % n_reads, None, nontrivial=False)
+    ctx.check(R, "limit-never-sizes-an-allocation", not bad, "allocation / reservation / resize calls whose argument derives from the limit: %s" % ([("%s in %s" % (c, f.id)) for f, _, c in bad] or "none"),
+              (bad[0][0], bad[0][1]) if bad else None)
+
+
+RULES = [("C11.R10", r10_limit_only_compared), ("C11.R9", r9_refusal_cannot_panic), ("C11.R8", r8_declared_limit_is_stored), ("C11.R7", r7_frame_errors_are_errors), ("C11.R1", r1_cap_before_delivery), ("C11.R2", r2_refusal_final), ("C11.R3", r3_cap_provenance), ("C11.R4", r4_effective_limit), ("C11.R5", r5_who_reads_body), ("C11.R6", r6_only_counted_bytes_refuse)]
 
 SELFTEST = [
     {"name": "ge-for-gt", "kind": "mutant", "edits": [("dropshot/src/extractor/body.rs", "if bytes_read + len > self.cap {", "if bytes_read + len >= self.cap {")], "expect": ["C11.R1"],
